@@ -176,6 +176,8 @@ def gen_op(rng, op_id, arrays, objects, strings, n_tmp):
         if kind == 'key':
             return ['str', rng.choice(KEYS)]
         if kind == 'sub':
+            if fn == 'stringReplace' and rng.random() < 0.12:
+                return ['str', '']          # an empty search string (the smallest one)
             return ['str', rng.choice(SUBS)]
         if kind == 'code':
             return ['num', rng.choice([65, 97, 233, 0x1D11E, 48, 0, -1, 65.5, 0x110000, 32])]
